@@ -38,8 +38,8 @@ type World struct {
 	lastDump   string
 	// fault runs: called between an operation's last statement and its COMMIT
 	preCommit func()
-	faultMode  bool
-	api        *ApiWorld
+	faultMode bool
+	api       *ApiWorld
 }
 
 // Api returns the handler-level view of this world.
